@@ -1,0 +1,35 @@
+//go:build verif
+
+// Contracts for the cff command (file selection and output naming), checked by
+// /verif/engine (cffvc, pass K with Go strings as SMT strings). Comments only.
+//
+// path/filepath.Base, Dir, Ext, Join are uninterpreted; assumed of Ext: it is a
+// suffix of its argument, and a name ending in ".go" has extension ".go".
+
+package main
+
+//@ func genFilename
+//@   ensures [C16] test-file-maps-to-gen-test-file-in-the-same-directory: forall(st, string, implies(fpBase(path) == st + "_test.go", result == fpJoin(fpDir(path), st + "_gen_test.go")))
+//@   ensures [C16] source-file-maps-to-gen-file-in-the-same-directory: forall(st, string, implies(fpBase(path) == st + ".go" && !hasSuffix(fpBase(path), "_test.go"), result == fpJoin(fpDir(path), st + "_gen.go")))
+
+// run: with -file flags only the named files are processed, each to the
+// requested output path or, when none was given, to genFilename(path); without
+// -file flags every file goes to genFilename(path). Ghost sel / outOf are the
+// -file flags as given on the command line.
+
+//@ macro FLAGS = forall(k, string, mapHas(outputs, k) == in(k, sel)) && forall(k, string, implies(in(k, sel), mapVal(outputs, k) == outOf[k]))
+
+//@ func run
+//@   option nosafety=true
+//@   ghost sel set[string]
+//@   ghost outOf map[string]string
+//@   ghost gf string = ""
+//@   loop 1 invariant [C16] outputs-map-holds-exactly-the-file-flags: $FLAGS
+//@   at mapupdate 1 ghost sel = add(sel, key)
+//@   at mapupdate 1 ghost outOf[key] = val
+//@   loop 2 invariant [C16] file-flags-unchanged-while-processing-packages: $FLAGS
+//@   loop 3 invariant [C16] file-flags-unchanged-while-processing-files: $FLAGS
+//@   at call genFilename 1 pre assert [C16] default-name-computed-for-this-file: arg0 == path
+//@   at call genFilename 1 ghost gf = ret
+//@   at call Process 1 pre assert [C16] only-selected-files-are-processed: implies(len(f.Files) > 0, in(fpBase(path), sel))
+//@   at call Process 1 pre assert [C16] output-path-is-the-requested-or-the-default-one: arg3 == ite(in(fpBase(path), sel) && outOf[fpBase(path)] != "", outOf[fpBase(path)], gf)
